@@ -112,6 +112,9 @@ impl Ctx {
     }
     pub fn write_out(&self, dir: &str) -> anyhow::Result<()> {
         std::fs::create_dir_all(dir)?;
+        let grace = crate::pipe::WATCHDOG_GRACE_USED.load(std::sync::atomic::Ordering::SeqCst);
+        let mut notes = self.notes.clone();
+        if grace > 0 { notes.push(format!("watchdog grace period used by {grace} runs (machine stall; the runs completed and were judged normally)")); }
         let mut f = std::io::BufWriter::new(std::fs::File::create(format!("{dir}/cases.txt"))?);
         for (i, r) in self.reqs.iter().enumerate() {
             writeln!(f, "{i} {r}")?;
@@ -138,7 +141,7 @@ impl Ctx {
         let meta = serde_json::json!({
             "property": self.prop, "seed": self.seed, "tier": format!("{:?}", self.tier),
             "cases": self.reqs.len(), "oracle_failures": fails, "stats": self.stats,
-            "samples": self.samples, "exhaustive_blocks": self.exhaustive_blocks, "notes": self.notes,
+            "samples": self.samples, "exhaustive_blocks": self.exhaustive_blocks, "notes": notes,
         });
         std::fs::write(format!("{dir}/meta.json"), serde_json::to_string_pretty(&meta)?)?;
         Ok(())
